@@ -1020,15 +1020,17 @@ func (p *PubSub) processLoop(ctx context.Context) {
 					in.s.Conn().RemotePeer(), in.s.Protocol())
 			}
 		case msg := <-p.sendMsg:
-			// the peer or the author may have been blacklisted while the message was being validated
+			// the peer or the author may have been blacklisted while the message was being validated;
+			// the message has been through the pipeline, so it is reported as ignored by validation,
+			// which makes the tracers release what they keep for a message under validation
 			if p.blacklist.Contains(msg.ReceivedFrom) {
 				p.logger.Debug("dropping validated message from blacklisted peer", "peer", msg.ReceivedFrom)
-				p.tracer.RejectMessage(msg, RejectBlacklstedPeer)
+				p.tracer.RejectMessage(msg, RejectValidationIgnored)
 				continue
 			}
 			if p.blacklist.Contains(msg.GetFrom()) {
 				p.logger.Debug("dropping validated message from blacklisted source", "source", msg.GetFrom())
-				p.tracer.RejectMessage(msg, RejectBlacklistedSource)
+				p.tracer.RejectMessage(msg, RejectValidationIgnored)
 				continue
 			}
 			p.publishMessage(msg)
